@@ -9,55 +9,319 @@ open Rbpf.JitAst (AI Tgt checkSeq window)
 
 theorem stepsN_add (c : Cfg) (m n : Nat) (σ σ1 σ2 : St) (h1 : stepsN c m σ = some σ1) (h2 : stepsN c n σ1 = some σ2) :
     stepsN c (m + n) σ = some σ2 := by
-  sorry
+  induction m generalizing σ with
+  | zero =>
+    simp only [stepsN, Option.some.injEq] at h1
+    subst h1
+    simpa using h2
+  | succ m ih =>
+    rw [Nat.add_right_comm]
+    simp only [stepsN] at h1 ⊢
+    split at h1
+    · next s' hs => exact ih _ h1
+    · simp at h1
 
 theorem stepsN_one (c : Cfg) (σ σ' : St) (h : step c σ = .next σ') : stepsN c 1 σ = some σ' := by
-  sorry
+  simp only [stepsN, h]
 
 /-- the machine's fetch at `codeBase + a` is the checker's window at offset `a` -/
 theorem fetch_eq_window (c : Cfg) (a : Nat) : fetch c (c.codeBase + a) = window c.code a := by
-  sorry
+  unfold fetch window
+  rw [if_neg (by omega)]
+  simp only [Nat.add_sub_cancel_left]
 
 /-- one machine step at a place where the code decodes to `x` (length `n`) -/
 theorem step_at (c : Cfg) (σ : St) (a n : Nat) (x : Instr) (hrip : σ.rip = c.codeBase + a)
     (hdec : decode (window c.code a) = some (x, n)) : step c σ = exec c σ x (c.codeBase + a + n) := by
-  sorry
+  unfold step
+  rw [hrip, fetch_eq_window, hdec]
 
 @[simp] theorem checkSeq_nil (code : Array UInt8) (tgt : Tgt → Option Nat) (a : Nat) : checkSeq code tgt a [] = some a := by
-  sorry
-
-/-- the checker only moves forward -/
-theorem checkSeq_le (code : Array UInt8) (tgt : Tgt → Option Nat) (a b : Nat) (ais : List AI)
-    (h : checkSeq code tgt a ais = some b) : a ≤ b := by
-  sorry
+  simp only [checkSeq]
 
 theorem checkSeq_i (code : Array UInt8) (tgt : Tgt → Option Nat) (a b : Nat) (x : Instr) (rest : List AI)
     (h : checkSeq code tgt a (.i x :: rest) = some b) :
     ∃ n, decode (window code a) = some (x, n) ∧ checkSeq code tgt (a + n) rest = some b := by
-  sorry
+  simp only [checkSeq] at h
+  split at h
+  · simp at h
+  · next ins n hd =>
+    split at h
+    · next hg =>
+      have : x = ins := by simpa using hg
+      subst this
+      exact ⟨n, hd, h⟩
+    · simp at h
 
 theorem checkSeq_jcc (code : Array UInt8) (tgt : Tgt → Option Nat) (a b : Nat) (cc : X86.Cc) (t : Tgt) (rest : List AI)
     (h : checkSeq code tgt a (.jcc cc t :: rest) = some b) :
     ∃ n rel l, decode (window code a) = some (.jcc cc rel, n) ∧ tgt t = some l ∧
       ((a + n : Nat) : Int) + rel.toInt = (l : Int) ∧ checkSeq code tgt (a + n) rest = some b := by
-  sorry
+  simp only [checkSeq] at h
+  cases hd : decode (window code a) with
+  | none => simp [hd] at h
+  | some p =>
+    obtain ⟨ins, n⟩ := p
+    rw [hd] at h
+    cases ins <;> simp only [Bool.false_eq_true, if_false, reduceCtorEq] at h
+    next cc' rel =>
+      cases ht : tgt t with
+      | none => simp [ht] at h
+      | some l =>
+        simp only [ht, Bool.and_eq_true, beq_iff_eq] at h
+        split at h
+        · next hc =>
+          obtain ⟨hcc, hl⟩ := hc
+          subst hcc
+          exact ⟨n, rel, l, rfl, rfl, hl, h⟩
+        · simp at h
 
 theorem checkSeq_jmp (code : Array UInt8) (tgt : Tgt → Option Nat) (a b : Nat) (t : Tgt) (rest : List AI)
     (h : checkSeq code tgt a (.jmp t :: rest) = some b) :
     ∃ n rel l, decode (window code a) = some (.jmp rel, n) ∧ tgt t = some l ∧
       ((a + n : Nat) : Int) + rel.toInt = (l : Int) ∧ checkSeq code tgt (a + n) rest = some b := by
-  sorry
+  simp only [checkSeq] at h
+  cases hd : decode (window code a) with
+  | none => simp [hd] at h
+  | some p =>
+    obtain ⟨ins, n⟩ := p
+    rw [hd] at h
+    cases ins <;> simp only [Bool.false_eq_true, if_false, reduceCtorEq] at h
+    next rel =>
+      cases ht : tgt t with
+      | none => simp [ht] at h
+      | some l =>
+        simp only [ht, beq_iff_eq] at h
+        split at h
+        · next hl => exact ⟨n, rel, l, rfl, rfl, hl, h⟩
+        · simp at h
 
 theorem checkSeq_call (code : Array UInt8) (tgt : Tgt → Option Nat) (a b : Nat) (t : Tgt) (rest : List AI)
     (h : checkSeq code tgt a (.call t :: rest) = some b) :
     ∃ n rel l, decode (window code a) = some (.call rel, n) ∧ tgt t = some l ∧
       ((a + n : Nat) : Int) + rel.toInt = (l : Int) ∧ checkSeq code tgt (a + n) rest = some b := by
-  sorry
+  simp only [checkSeq] at h
+  cases hd : decode (window code a) with
+  | none => simp [hd] at h
+  | some p =>
+    obtain ⟨ins, n⟩ := p
+    rw [hd] at h
+    cases ins <;> simp only [Bool.false_eq_true, if_false, reduceCtorEq] at h
+    next rel =>
+      cases ht : tgt t with
+      | none => simp [ht] at h
+      | some l =>
+        simp only [ht, beq_iff_eq] at h
+        split at h
+        · next hl => exact ⟨n, rel, l, rfl, rfl, hl, h⟩
+        · simp at h
+
+private theorem ite_none_some {α : Type} {c : Prop} [Decidable c] {x : Option α} {b : α}
+    (h : (if c then x else none) = some b) : x = some b := by
+  split at h
+  · exact h
+  · simp at h
+
+private theorem ite_none_some' {α : Type} {c : Prop} [Decidable c] {x : Option α} {b : α}
+    (h : (if c then x else none) = some b) : c ∧ x = some b := by
+  split at h
+  · next hc => exact ⟨hc, h⟩
+  · simp at h
+
+/-- one element of the checked list consumes some (decoded) length -/
+theorem checkSeq_cons (code : Array UInt8) (tgt : Tgt → Option Nat) (a b : Nat) (ai : AI) (rest : List AI)
+    (h : checkSeq code tgt a (ai :: rest) = some b) : ∃ n, checkSeq code tgt (a + n) rest = some b := by
+  simp only [checkSeq] at h
+  cases hd : decode (window code a) with
+  | none => simp [hd] at h
+  | some p =>
+    obtain ⟨ins, n⟩ := p
+    rw [hd] at h
+    exact ⟨n, ite_none_some h⟩
+
+/-- the checker only moves forward -/
+theorem checkSeq_le (code : Array UInt8) (tgt : Tgt → Option Nat) (a b : Nat) (ais : List AI)
+    (h : checkSeq code tgt a ais = some b) : a ≤ b := by
+  induction ais generalizing a with
+  | nil => simp at h; omega
+  | cons ai rest ih =>
+    obtain ⟨n, hn⟩ := checkSeq_cons code tgt a b ai rest h
+    have := ih _ hn
+    omega
 
 /-- a relative jump from the instruction ending at `codeBase + e` lands at `codeBase + l` when the checker's
     landing equation holds and the addresses stay below 2^63 -/
 theorem relTarget_lands (base e l : Nat) (rel : BitVec 32) (h : (e : Int) + rel.toInt = (l : Int)) (hb : base + e < 2 ^ 63)
     : X86.relTarget (base + e) rel = base + l := by
-  sorry
+  unfold X86.relTarget
+  have h1 := BitVec.toInt_lt (x := rel)
+  have h2 := BitVec.le_toInt (x := rel)
+  have h3 : ((base + e : Nat) : Int) + rel.toInt = ((base + l : Nat) : Int) := by omega
+  have h4 : ((base + l : Nat) : Int).emod (2 ^ 64) = ((base + l : Nat) : Int) :=
+    Int.emod_eq_of_lt (by omega) (by omega)
+  rw [h3, h4]
+  exact Int.toNat_natCast _
+
+-- registers ---------------------------------------------------------------------------------------------------
+
+theorem regOf_lt (k : Nat) (h : k < 11) : regOf k < 16 := by
+  have : ∀ k : Fin 11, regOf k < 16 := by decide
+  exact this ⟨k, h⟩
+
+theorem regOf_inj (k j : Nat) (hk : k < 11) (hj : j < 11) (h : regOf k = regOf j) : k = j := by
+  have : ∀ k j : Fin 11, regOf k = regOf j → k = j := by decide
+  exact congrArg Fin.val (this ⟨k, hk⟩ ⟨j, hj⟩ h)
+
+/-- the mapped registers avoid rsp, the packet pointer r10 and the scratch registers rcx, r11 -/
+theorem regOf_ne_special (k : Nat) (h : k < 11) : regOf k ≠ 4 ∧ regOf k ≠ 10 ∧ regOf k ≠ 11 ∧ regOf k ≠ 1 := by
+  have : ∀ k : Fin 11, regOf k ≠ 4 ∧ regOf k ≠ 10 ∧ regOf k ≠ 11 ∧ regOf k ≠ 1 := by decide
+  exact this ⟨k, h⟩
+
+theorem mapRegister_eq (k : Nat) (h : k < 11) : JitEmit.mapRegister? k = some (regOf k) := by
+  simp only [JitEmit.mapRegister?, if_pos h, regOf]
+
+theorem mapRegister_none (k : Nat) (h : 11 ≤ k) : JitEmit.mapRegister? k = none := by
+  simp only [JitEmit.mapRegister?, if_neg (Nat.not_lt.mpr h)]
+
+theorem get_set_eq (σ : St) (r : Nat) (v : BitVec 64) (h : r < 16) : (σ.set r v).get r = v := by
+  simp [St.get, St.set, Vector.getD, h]
+
+theorem get_set_ne (σ : St) (r r' : Nat) (v : BitVec 64) (h : r ≠ r') : (σ.set r v).get r' = σ.get r' := by
+  simp [St.get, St.set, Vector.getD, h]
+
+/-- `Rel0` does not look at `rip`, the flags, the log or the misalignment counter -/
+theorem rel0_congr (retAddr : Nat) (σ σ' : St) (s : State) (h : Rel0 retAddr σ s) (hr : σ'.reg = σ.reg) (hm : σ'.mem = σ.mem) :
+    Rel0 retAddr σ' s := by
+  obtain ⟨h1, h2, h3, h4, h5, h6⟩ := h
+  constructor
+  · intro k hk; simpa only [St.get, hr] using h1 k hk
+  · rw [hm]; exact h2
+  · simpa only [St.get, hr] using h3
+  · simpa only [St.get, hr] using h4
+  · simpa only [St.get, hr, hm] using h5
+  · exact h6
+
+/-- writing eBPF register `d` on both sides -/
+theorem rel0_wr (retAddr : Nat) (σ : St) (s : State) (d : Nat) (v : BitVec 64) (hd : d < 11) (h : Rel0 retAddr σ s) :
+    Rel0 retAddr (σ.set (regOf d) v) { s with reg := s.reg.setIfInBounds d v } := by
+  obtain ⟨h1, h2, h3, h4, h5, h6⟩ := h
+  obtain ⟨n4, n10, -, -⟩ := regOf_ne_special d hd
+  have e4 : (σ.set (regOf d) v).get X86.RSP = σ.get X86.RSP := get_set_ne σ _ _ v n4
+  constructor
+  · intro k hk
+    by_cases hkd : k = d
+    · subst hkd
+      rw [get_set_eq σ _ v (regOf_lt k hk)]
+      simp [Vector.getD, hk]
+    · have : regOf d ≠ regOf k := fun e => hkd (regOf_inj d k hd hk e).symm
+      rw [get_set_ne σ _ _ v this, h1 k hk]
+      simp [Vector.getD, hk, Ne.symm hkd]
+  · exact h2
+  · rw [get_set_ne σ _ _ v n10]; exact h3
+  · rw [e4]; exact h4
+  · rw [e4]; exact h5
+  · exact h6
+
+/-- writing a scratch register (rcx or r11) on the machine side only -/
+theorem rel0_scratch (retAddr : Nat) (σ : St) (s : State) (r : Nat) (v : BitVec 64) (hr : r = 1 ∨ r = 11) (h : Rel0 retAddr σ s) :
+    Rel0 retAddr (σ.set r v) s := by
+  obtain ⟨h1, h2, h3, h4, h5, h6⟩ := h
+  have n4 : r ≠ X86.RSP := by unfold X86.RSP; omega
+  have e4 : (σ.set r v).get X86.RSP = σ.get X86.RSP := get_set_ne σ _ _ v n4
+  constructor
+  · intro k hk
+    obtain ⟨-, -, n11, n1⟩ := regOf_ne_special k hk
+    have : r ≠ regOf k := by omega
+    rw [get_set_ne σ _ _ v this]; exact h1 k hk
+  · exact h2
+  · rw [get_set_ne σ _ _ v (by omega)]; exact h3
+  · rw [e4]; exact h4
+  · rw [e4]; exact h5
+  · exact h6
+
+/-- the program counter of the eBPF state is not part of `Rel0` -/
+theorem rel0_pc (retAddr : Nat) (σ : St) (s : State) (pc : Nat) (h : Rel0 retAddr σ s) : Rel0 retAddr σ { s with pc := pc } := by
+  obtain ⟨h1, h2, h3, h4, h5, h6⟩ := h
+  exact ⟨h1, h2, h3, h4, h5, h6⟩
+
+-- further generally useful facts --------------------------------------------------------------------------------
+
+@[simp] theorem stepsN_zero (c : Cfg) (σ : St) : stepsN c 0 σ = some σ := rfl
+
+/-- one step followed by `n` steps -/
+theorem stepsN_succ (c : Cfg) (n : Nat) (σ σ1 σ2 : St) (h1 : step c σ = .next σ1) (h2 : stepsN c n σ1 = some σ2) :
+    stepsN c (n + 1) σ = some σ2 := by
+  simp only [stepsN, h1, h2]
+
+theorem stepsN_two (c : Cfg) (σ σ1 σ2 : St) (h1 : step c σ = .next σ1) (h2 : step c σ1 = .next σ2) :
+    stepsN c 2 σ = some σ2 :=
+  stepsN_succ c 1 σ σ1 σ2 h1 (stepsN_one c σ1 σ2 h2)
+
+theorem stepsN_three (c : Cfg) (σ σ1 σ2 σ3 : St) (h1 : step c σ = .next σ1) (h2 : step c σ1 = .next σ2)
+    (h3 : step c σ2 = .next σ3) : stepsN c 3 σ = some σ3 :=
+  stepsN_succ c 2 σ σ1 σ3 h1 (stepsN_two c σ1 σ2 σ3 h2 h3)
+
+/-- `step_at` and `stepsN_one` in one: the instruction at `rip` executes to `σ'` -/
+theorem stepsN_one_at (c : Cfg) (σ σ' : St) (a n : Nat) (x : Instr) (hrip : σ.rip = c.codeBase + a)
+    (hdec : decode (window c.code a) = some (x, n)) (hx : exec c σ x (c.codeBase + a + n) = .next σ') :
+    stepsN c 1 σ = some σ' :=
+  stepsN_one c σ σ' (by rw [step_at c σ a n x hrip hdec, hx])
+
+/-- the instruction at `rip` executes to `σ1`, then `k` more steps -/
+theorem stepsN_succ_at (c : Cfg) (k : Nat) (σ σ1 σ2 : St) (a n : Nat) (x : Instr) (hrip : σ.rip = c.codeBase + a)
+    (hdec : decode (window c.code a) = some (x, n)) (hx : exec c σ x (c.codeBase + a + n) = .next σ1)
+    (hk : stepsN c k σ1 = some σ2) : stepsN c (k + 1) σ = some σ2 :=
+  stepsN_succ c k σ σ1 σ2 (by rw [step_at c σ a n x hrip hdec, hx]) hk
+
+/-- checking a concatenation is checking the parts one after the other -/
+theorem checkSeq_append (code : Array UInt8) (tgt : Tgt → Option Nat) (a b : Nat) (l1 l2 : List AI)
+    (h : checkSeq code tgt a (l1 ++ l2) = some b) :
+    ∃ m, checkSeq code tgt a l1 = some m ∧ checkSeq code tgt m l2 = some b := by
+  induction l1 generalizing a with
+  | nil => exact ⟨a, by simp, by simpa using h⟩
+  | cons ai rest ih =>
+    simp only [List.cons_append, checkSeq] at h ⊢
+    cases hd : decode (window code a) with
+    | none => simp [hd] at h
+    | some p =>
+      obtain ⟨ins, n⟩ := p
+      rw [hd] at h
+      obtain ⟨hg, h'⟩ := ite_none_some' h
+      obtain ⟨m, hm1, hm2⟩ := ih _ h'
+      exact ⟨m, (if_pos hg).trans hm1, hm2⟩
+
+@[simp] theorem set_rip (σ : St) (r : Nat) (v : BitVec 64) : (σ.set r v).rip = σ.rip := rfl
+@[simp] theorem set_mem (σ : St) (r : Nat) (v : BitVec 64) : (σ.set r v).mem = σ.mem := rfl
+@[simp] theorem set_flags (σ : St) (r : Nat) (v : BitVec 64) : (σ.set r v).flags = σ.flags := rfl
+@[simp] theorem set_log (σ : St) (r : Nat) (v : BitVec 64) : (σ.set r v).log = σ.log := rfl
+@[simp] theorem set_misaligned (σ : St) (r : Nat) (v : BitVec 64) : (σ.set r v).misaligned = σ.misaligned := rfl
+
+/-- `get` only looks at the register file -/
+theorem get_congr (σ σ' : St) (r : Nat) (h : σ'.reg = σ.reg) : σ'.get r = σ.get r := by
+  simp only [St.get, h]
+
+/-- reading any register after a write -/
+theorem get_set (σ : St) (r r' : Nat) (v : BitVec 64) :
+    (σ.set r v).get r' = if r = r' ∧ r < 16 then v else σ.get r' := by
+  by_cases h : r = r'
+  · subst h
+    by_cases h16 : r < 16
+    · rw [get_set_eq σ r v h16, if_pos ⟨rfl, h16⟩]
+    · rw [if_neg (fun hh => h16 hh.2)]
+      simp [St.get, St.set, Vector.getD, h16]
+  · rw [get_set_ne σ r r' v h, if_neg (fun hh => h hh.1)]
+
+/-- the register map, entry by entry (`REGISTER_MAP`) -/
+theorem regOf_vals : regOf 0 = 0 ∧ regOf 1 = 7 ∧ regOf 2 = 6 ∧ regOf 3 = 2 ∧ regOf 4 = 9 ∧ regOf 5 = 8 ∧ regOf 6 = 3 ∧
+    regOf 7 = 13 ∧ regOf 8 = 14 ∧ regOf 9 = 15 ∧ regOf 10 = 5 := by decide
+
+/-- reading eBPF register `k` on the machine side -/
+theorem rel0_get (retAddr : Nat) (σ : St) (s : State) (k : Nat) (hk : k < 11) (h : Rel0 retAddr σ s) :
+    σ.get (regOf k) = s.reg.getD k 0 := h.regs k hk
+
+/-- writing eBPF register `d` and setting the program counter -/
+theorem rel0_wr_pc (retAddr : Nat) (σ : St) (s : State) (d : Nat) (v : BitVec 64) (pc : Nat) (hd : d < 11)
+    (h : Rel0 retAddr σ s) : Rel0 retAddr (σ.set (regOf d) v) { s with reg := s.reg.setIfInBounds d v, pc := pc } :=
+  rel0_pc retAddr _ _ pc (rel0_wr retAddr σ s d v hd h)
 
 end Rbpf.JitSim
